@@ -211,6 +211,14 @@ def gen_problem_edit(pb: ast.AST) -> str:
     for nm in ("n_variables", "get_bounds"):
         b = _body(meth[nm])
         out.append(f"def {nm.replace('_v', 'V').replace('_b', 'B')}TextG : String := {json.dumps('; '.join(_u(s) for s in b))}")
+    # the remaining read-only accessors and the two small predicates, as (name, text) pairs
+    pairs = []
+    for nm in ("objective", "sense", "constraints", "n_constraints", "_has_equality_constraints", "_only_simple_bounds"):
+        if nm not in meth:
+            raise TranslateError(f"Problem.{nm} not found")
+        pairs.append((nm, "; ".join(" ".join(_u(s).split()) for s in _body(meth[nm]) if not isinstance(s, (ast.Import, ast.ImportFrom)))))
+    out.append("/-- read-only accessors of `Problem`, statement by statement -/")
+    out.append("def problemReadersG : List (String × String) := [" + ", ".join(f"({json.dumps(a)}, {json.dumps(b)})" for a, b in pairs) + "]")
     return "\n".join(out) + "\n"
 
 
